@@ -182,3 +182,77 @@ func Harness_Phase1() {
 		}
 	}
 }
+
+// vhConcreteGraph builds the cube's graph (all edges concrete).
+func vhConcreteGraph() (*graph.DGraph, []*graph.Node) {
+	n, m := vhConst("N"), vhConst("M")
+	nodes := make([]*graph.Node, n)
+	for i := range nodes {
+		nodes[i] = &graph.Node{}
+	}
+	g := &graph.DGraph{Nodes: nodes}
+	for i := 0; i < m; i++ {
+		f, t := vhConstIdx("ef", i), vhConstIdx("et", i)
+		e := graph.NewEdge(nodes[f], nodes[t], 1)
+		nodes[f].Out.Add(e)
+		nodes[t].In.Add(e)
+		g.Edges.Add(e)
+	}
+	return g, nodes
+}
+
+func vhEdgeIndex(g *graph.DGraph, e *graph.Edge) int {
+	for i, x := range g.Edges {
+		if x == e {
+			return i
+		}
+	}
+	return -1
+}
+
+// Harness_Phase1_Deterministic (C07 kernel): the real phase1.Alg.Process runs on two copies of the
+// same cube under independent symbolic map-iteration orders; everything later phases read - which
+// edges are reversed, the order of g.Edges and the ORDER of every node's In and Out list - must be
+// the same. A sat answer is only a candidate: the driver confirms it through the public API
+// (Harness_E_C07 on the same edge list, repeated natively) before anything is reported.
+// NOT REGISTERED in any check: on the unchanged tree it decides 42 000 cubes in under 3 minutes, but
+// under a change that makes the adjacency order depend on a map order (seed C07-m2) every cyclic cube
+// becomes a heap of ite-trees and the run does not end; kept for experiments (DESIGN.md section 8).
+func Harness_Phase1_Deterministic() {
+	alg := Alg(vhConst("ALG"))
+	g1, n1 := vhConcreteGraph()
+	g2, n2 := vhConcreteGraph()
+	params := graph.Params{}
+	alg.Process(g1, params)
+	alg.Process(g2, params)
+	vhReach("both-returned")
+	same := len(g1.Edges) == len(g2.Edges)
+	for i := range g1.Edges {
+		if i < len(g2.Edges) {
+			a, b := g1.Edges[i], g2.Edges[i]
+			if a.IsReversed != b.IsReversed || vhIndex(n1, a.From) != vhIndex(n2, b.From) || vhIndex(n1, a.To) != vhIndex(n2, b.To) {
+				same = false
+			}
+		}
+	}
+	vhAssert(same, "same-edges-reversed-under-every-map-order")
+	lists := true
+	for i := range n1 {
+		a, b := n1[i], n2[i]
+		if len(a.Out) != len(b.Out) || len(a.In) != len(b.In) {
+			lists = false
+			continue
+		}
+		for k := range a.Out {
+			if vhEdgeIndex(g1, a.Out[k]) != vhEdgeIndex(g2, b.Out[k]) {
+				lists = false
+			}
+		}
+		for k := range a.In {
+			if vhEdgeIndex(g1, a.In[k]) != vhEdgeIndex(g2, b.In[k]) {
+				lists = false
+			}
+		}
+	}
+	vhAssert(lists, "same-adjacency-list-order-under-every-map-order")
+}
